@@ -106,6 +106,7 @@ type interpreter struct {
 	depth     int
 	stdout    []value
 	budgetAt  int64
+	tempCells map[*value]bool
 }
 
 type deferred struct {
@@ -278,6 +279,9 @@ func visitInstr(fr *frame, instr ssa.Instruction) continuation {
 
 	case *ssa.Store:
 		addr := fr.get(instr.Addr).(*value)
+		if fr.i.tempCells != nil && fr.i.tempCells[addr] {
+			panic(engineAbort{kind: abortUnsupported, msg: "store through a symbolic table index"})
+		}
 		if fr.i.freezeOn {
 			fr.i.monitorWrite(addr)
 		}
@@ -360,9 +364,17 @@ func visitInstr(fr *frame, instr ssa.Instruction) continuation {
 		idx := fr.get(instr.Index)
 		switch x := x.(type) {
 		case []value:
+			if p := fr.i.symTableRead(x, idx, fr.site(instr)); p != nil {
+				fr.env[instr] = p
+				break
+			}
 			fr.env[instr] = &x[fr.i.concInt(idx, 0, int64(len(x)), fr.site(instr))]
 		case *value: // *array
 			a := (*x).(array)
+			if p := fr.i.symTableRead(a, idx, fr.site(instr)); p != nil {
+				fr.env[instr] = p
+				break
+			}
 			fr.env[instr] = &a[fr.i.concInt(idx, 0, int64(len(a)), fr.site(instr))]
 		default:
 			panic(fmt.Sprintf("unexpected x type in IndexAddr: %T", x))
@@ -374,8 +386,16 @@ func visitInstr(fr *frame, instr ssa.Instruction) continuation {
 
 		switch x := x.(type) {
 		case array:
+			if p := fr.i.symTableRead(x, idx, fr.site(instr)); p != nil {
+				fr.env[instr] = *p
+				break
+			}
 			fr.env[instr] = x[fr.i.concInt(idx, 0, int64(len(x)), fr.site(instr))]
 		case string:
+			if p := fr.i.symStringRead(x, idx, fr.site(instr)); p != nil {
+				fr.env[instr] = *p
+				break
+			}
 			fr.env[instr] = x[fr.i.concInt(idx, 0, int64(len(x)), fr.site(instr))]
 		case sstr:
 			fr.env[instr] = x.b[fr.i.concInt(idx, 0, int64(len(x.b)), fr.site(instr))]
